@@ -309,9 +309,12 @@ if granted == 0 or conflicts == 0:
     ck.inconclusive.append(f'vacuous: try_lock granted on {granted} paths, refused on {conflicts}')
 ck.notes.append(f'try_lock: granted on {granted} paths, refused on {conflicts} paths')
 
+# the reverse index may list keys a transaction no longer owns (taken over after expiry), and one transaction may own two
+# locks of different age: shapes with two listed keys also in quick
+K11_SHAPES = list(shapes()) + [s_ for s_ in [(1, [2]), (2, [2]), (2, [2, 1])] if s_ not in [(a_, b_) for a_, b_ in shapes()]]
 # ---------------- serialize / restore
-ck.declare('K12_serialize_restore_identity', 'from_serializable(to_serializable(lm)) over every table shape', 'every lock that is not past its TTL comes back unchanged (key, owner, handle, times), nothing is invented, and every restored lock is listed under its owner (invariant I)')
-for nl, tv in shapes():
+ck.declare('K12_serialize_restore_identity', 'from_serializable(to_serializable(lm)) over every table shape (incl. one owner of two locks)', 'every lock that is not past its TTL comes back unchanged (key, owner, handle, times), nothing is invented, and every restored lock is listed under its owner (invariant I)')
+for nl, tv in K11_SHAPES:
     st = ex.new_state()
     tb = Table(st, nl, tv)
     dflt = st.roots['lm'].load(F('LockManager', 'default_timeout'), 'std::time::Duration', st)
@@ -342,8 +345,6 @@ for nl, tv in shapes():
             cs.append(invariant(L, Tm))
             ck.require(ex, 'K12_serialize_restore_identity', r2.pc, None, z3.And(cs), wit, lambda m, w: 'serialize-restore')
 
-# the reverse index may list keys a transaction no longer owns (taken over after expiry): shapes with two listed keys
-K11_SHAPES = list(shapes()) + [s_ for s_ in [(1, [2]), (2, [2]), (2, [2, 1])] if s_ not in [(a_, b_) for a_, b_ in shapes()]]
 for nl, tv in K11_SHAPES:
     # ---------------- the wait-graph flavours: whoever loses its locks here also leaves the wait-for graph
     for call in ('release_by_handle_with_wait_cleanup', 'cleanup_expired_with_wait_cleanup'):
